@@ -45,6 +45,24 @@ def run(ctx):
 NO_FOLLOW = re.compile(r'^std::fs::DirEntry::(file_type|metadata)$|^std::fs::symlink_metadata$|^std::path::Path::(symlink_metadata|is_symlink)$|^std::fs::FileType::')
 
 
+def _ext_guarded_by_file(pe, c, sw, didx):
+    """the extension set at `c` is the payload of an Option that the Directory arm of the match on the entry builds as None
+    (possibly inside a tuple with the id) and that is tested for Some before `c`"""
+    from mir import agg_direct
+    de = pe.variant_edge(sw, didx)
+    others = [d for d, _ in pe.edges(sw) if d != de]
+    only_dir = pe.reachable([de]) - pe.reachable(others)
+    gs = [g for g in common.guards_of(pe, c.bb) if g[3][0] == 'discr' and common.guard_variant(pe, g) == 1]
+    if not gs:
+        return False
+    # every Option built on the Directory-only part of the function is None
+    opts = []
+    for bb, _, st in pe.assigns():
+        if bb in only_dir and st['rv']['k'] == 'aggregate' and st['rv'].get('adt') == 'std::option::Option':
+            opts.append(st['rv'].get('variant_name'))
+    return bool(opts) and set(opts) == {'None'}
+
+
 def r6(R6, cfg, F):
     """`read(id, ext)` and `exists` of the FileSystem source follow symbolic links (fs::read, Path::exists).  `read_dir`
     must agree with them, or load_dir lists fewer entries than load can read: the File arm is taken on
@@ -59,6 +77,26 @@ def r6(R6, cfg, F):
         R6.bad(cfg, c.body.path, 'asks-the-entry-not-the-path:' + c.callee.name, '`%s` does not follow symbolic links, while reading an entry does: a linked file or directory would be readable but never listed' % c.callee.best, c.loc())
     if not bad:
         R6.ok(cfg, 'source::filesystem', 'no-link-blind-classification', b.loc())
+    # the path of an entry: only a File gets an extension (set_extension on the path of a directory -- the root of the source
+    # for the id "" -- would strip what follows the last dot of the directory's own name)
+    pe = F.body('utils::private::path_of_entry')
+    if not pe:
+        R6.missing(cfg, 'utils::private::path_of_entry')
+    else:
+        se = [c for c in pe.calls() if c.callee and c.callee.name in ('set_extension', 'with_extension', 'add_extension') and 'Path' in c.callee.best]
+        okp = len(se) >= 1
+        for c in se:
+            # reachable only for DirEntry::File: on the Directory arm of the match on the entry it must not be reachable
+            sws = [bb for bb, t in pe.terms() if t['k'] == 'switch' and (common.switch_test(pe, bb) or ('', []))[0] == 'discr' and common.strip_refs((common.switch_test(pe, bb) or ('', []))[1] or []) == ['arg2']]
+            adt = F.adt('source::DirEntry')
+            didx = [v['idx'] for v in adt['variants'] if v['name'] == 'Directory'][0] if adt else None
+            if len(sws) != 1 or didx is None:
+                okp = False
+                break
+            de = pe.variant_edge(sws[0], didx)
+            if de is None or c.bb in common.reach_bool(pe, de) and not _ext_guarded_by_file(pe, c, sws[0], didx):
+                okp = False
+        R6.check(okp, cfg, pe.path, 'extension-only-for-File-entries', 'path_of_entry must call set_extension only for DirEntry::File: on a Directory it strips the end of a directory name that contains a dot', pe.loc())
     # the two kinds of entries: wherever read_dir (or a helper written in place) builds one, it is under the right test
     isf = [c for c in b.calls() if c.callee and c.callee.best == 'std::path::Path::is_file']
     isd = [c for c in b.calls() if c.callee and c.callee.best == 'std::path::Path::is_dir']
